@@ -140,6 +140,11 @@ def run(ctx):
          notes.get("stale_survivors", 0) != 0 or notes.get("stale_zero_withdraw_ok") or notes.get("stale_two_stores")),
         ("negative_fund_amount", 2, "782c385", "a negative contribution or withdrawal was accepted / the refund after the cancellation was refused",
          notes.get("negfund_deliver_ok") or notes.get("negfund_checktx_code") == 0 or notes.get("negwithdraw_ok") or notes.get("negfund_refund_ok") is False),
+        ("tally_float_boundary", 10, "6d9c57c", "a NO share of exactly (100-pass)% failed the proposal / a tally on a threshold was decided wrongly",
+         notes.get("tally_exact33_undecided") is False or notes.get("tally_exact33_then_passes") is False or
+         notes.get("tally_33p5_failed") is False or notes.get("tally_exact67_passed") is False),
+        ("proposal_id_alphabet", 11, "76734a6", "a proposal id that is not 64 hexadecimal characters was accepted by PROPOSAL_CREATE",
+         notes.get("badid_created") is not False),
         ("pass_percentage_drift", 3, "23f7d29", "a proposal whose votes pass under its own percentage was recorded as failed / ended up in two stores",
          notes.get("drift_p1_outcome_yes") is False or notes.get("drift_p1_two_stores") or notes.get("drift_applied") != 1),
     ]
